@@ -73,7 +73,7 @@ def fsckEntry (kind : PKind) (d : Disk) (bits pmax pfirst : Nat) (b : Nat) (e : 
               else none
 
 /-- the whole check -/
-def fsck (kind : PKind) (d : Disk) (buckets : NMap Nat) : List String :=
+def fsck (kind : PKind) (d : Disk) (buckets : NMap Nat) (ignore : List Nat := []) : List String :=
   match d.ihdr with
   | none => ["index header missing"]
   | some ih =>
@@ -90,7 +90,7 @@ def fsck (kind : PKind) (d : Disk) (buckets : NMap Nat) : List String :=
         (if pairwiseOK (fun a c => decide (klt a c)) ps then [] else [s!"bucket {b}: stored prefixes are not sorted"]) ++
         (if pairwiseOK (fun a c => decide (apart a c)) ps then [] else [s!"bucket {b}: stored prefixes are not prefix-free"]) ++
         (if (rl.map (·.blk.off)).eraseDups.length = rl.length then [] else [s!"bucket {b}: two entries name the same location"]) ++
-        rl.filterMap (fsckEntry kind d ih.bits pmax pfirst b) ++
+        (rl.filter fun e => !ignore.contains e.blk.off).filterMap (fsckEntry kind d ih.bits pmax pfirst b) ++
         (rl.filterMap fun e => if free.any (fun fb => fb.off = e.blk.off) then
             some s!"location {e.blk.off}:{e.blk.size} is on the freelist but named by a live entry of bucket {b}" else none)
     hdrs ++ perBucket
